@@ -525,6 +525,8 @@ def check(ctx):
     for cfgname in ctx.configs(quick=('base',), thorough=('base', 'wire', 'nostd')):
         f = ctx.facts(cfgname)
         rep.cur_config = cfgname
+        from . import common as _cm
+        _cm.check_helpers(ctx, f, rep, 'C12-R0', {'Probe::expect_indirect_ack', 'choose_members', 'Members::is_active', 'Probe::is_probing'})
         eff = Effects(f)
         common.check_derives(f, rep, 'C12-R0')
         r1_evidence(ctx, f, rep, eff)
